@@ -44,6 +44,12 @@ def new_manager(rnd, nvars=None, held=None, reordering=False):
     return dict(b=b, names=names, refs=refs, held=keep, rnd=rnd)
 
 
+def _shuffled(d, rnd):
+    items = list(d.items())
+    rnd.shuffle(items)
+    return dict(items)
+
+
 def any_ref(env, rnd):
     b = env['b']
     u = rnd.choice(list(b._succ))
@@ -463,7 +469,14 @@ def c_succ(seed):
 def c_declare(seed):
     def build(rnd):
         env = new_manager(rnd)
-        env.update(variables=[rnd.choice(NAMES) for _ in range(rnd.randint(0, 4))])
+        vs = [rnd.choice(NAMES) for _ in range(rnd.randint(0, 4))]
+        if rnd.random() < .4:
+            # one call that names the same variable twice (a new one if there is one)
+            new = [nm for nm in NAMES if nm not in env['b'].vars]
+            x = rnd.choice(new) if new else rnd.choice(NAMES)
+            for _ in range(2):
+                vs.insert(rnd.randrange(len(vs) + 1), x)
+        env.update(variables=vs)
         return env
 
     def za(e):
@@ -903,7 +916,7 @@ def _reorder_case(with_order):
             env = new_manager(rnd, nvars=rnd.randint(2, 4), held=rnd.randint(0, 4))
             names = list(env['b'].vars)
             rnd.shuffle(names)
-            env['order'] = {nm: k for k, nm in enumerate(names)} if with_order else None
+            env['order'] = _shuffled({nm: k for k, nm in enumerate(names)}, rnd) if with_order else None
             if rnd.random() < .3:
                 env['b'].configure(reordering=True)
                 env['b']._last_len = rnd.choice([1, 2, 3])
@@ -1046,7 +1059,7 @@ def _order_build(rnd):
     env = _order_mgr(rnd)
     names = list(env['b'].vars)
     rnd.shuffle(names)
-    env['order'] = {nm: k for k, nm in enumerate(names)}
+    env['order'] = _shuffled({nm: k for k, nm in enumerate(names)}, rnd)
     return env
 
 
